@@ -611,6 +611,10 @@ def evaluate(case: dict, root: Optional[str], parsed: Any = None) -> dict:
             e0 = sorted(es)[0]
             same_pos = [e for e in sorted(es) for g in got if g[1:] == call_site(e)[1:]]
             if same_pos:  # right position, wrong file: class = where the call is written
+                # (two call sites may share line and column in different files: a recorded file name that is not None
+                # can only be a mislabelled imported file)
+                if any(g[0] is not None for g in got):
+                    same_pos.sort(key=lambda e: (call_site(e)[0] is None, e))
                 e0 = same_pos[0]
                 cls2 = "wrong-file:call-written-in-" + file_class(idx.info[id(exps[e0]["call"])]["container"][0])
             else:
